@@ -51,6 +51,20 @@ def run(P, R, tier):
     point_like(P, R)
     reject_and_shortcut(P, R)
     fallback(P, R)
+    # C01.n: no answer without the kernel: in every list-backed kind, scalar and array form, each return of intersects_bounds passes through the
+    # intersection kernel (a "covering box" or cached-answer fast path skips the missing/empty handling and the exact test)
+    from rules import common as _cm
+    nk = 0
+    for mod, cls, L in list(geom.ARRAYS) + list(geom.SCALARS):
+        ci_ = P.cls(f'{geom.G}{mod}.{cls}')
+        c2, m2 = P.lookup(ci_, 'intersects_bounds')
+        if m2 is None or m2[0] != 'func' or 'oint' == cls[1:5].lower():
+            continue
+        if cls in ('Point', 'PointArray'):
+            continue
+        nk += _cm.kernel_on_every_path(P, R, 'C01.n', m2[1], lambda g: g.mod.name.endswith('_algorithms.intersection') and P.is_jit(g), 'the intersection kernel',
+                                       'rows are answered without the exact test (missing / empty elements and partial overlaps are decided by the shortcut)')
+    R.floor('C01.n', 'returns of the intersects_bounds wrappers', nk, 10)
     from rules import common as _common
     _common.no_fastmath(P, R, 'C01.k', ['spatialpandas.geometry._algorithms.intersection', 'spatialpandas.geometry._algorithms.orientation'])
     orientation_table(P, R)
